@@ -160,3 +160,37 @@ Proof.
                 (conj (gen_mintStaker_spec e ratio ok) (gen_mintStipend_spec e ratio ok))).
 Qed.
 Print Assumptions C05_code_tie_mint_panic_sites.
+
+From JK Require Import Gen.GoGauge Gen.GoReward Proofs.GoTieGauge Proofs.GoTieReward.
+
+(* ... and in the gauge release and the payout: the ratio's Quo by a zero duration (R3), the release's
+   TruncateInt64 (R4), the negative coin of a release (R5) and of a payout, as the generated code has them *)
+Theorem C05_code_tie_release_and_payout_panic_sites :
+  forall start end_ now amount escrow ratio pct ok,
+    gen_pullGauge start end_ now true false
+    = (if end_ <? now then GVal [Ev "remove-gauge"%string []]
+       else if end_ <=? start then GVal [Ev "remove-gauge"%string []]
+       else if Z.quot (Gauge.tsub end_ start) 1000 =? 0 then GPanic
+       else GVal [Ev "release-coins-at-ratio"%string
+                    [dec 1 - dquo (dec (Z.quot (Gauge.tsub end_ now) 1000)) (dec (Z.quot (Gauge.tsub end_ start) 1000))]]) /\
+    gen_pullCoin amount escrow ratio ok
+    = match dtrunc64 (dmul ratio (dec amount) - dec (amount - escrow)) with
+      | None => GPanic
+      | Some amt => if amt =? 0 then GVal [] else if amt <? 0 then GPanic
+                    else GVal [Ev "to-distribute"%string [amt]; Ev "escrow-to-module"%string [amt]]
+      end /\
+    gen_rewardCoin amount pct ok
+    = (let owed := dtrunc (dmul pct (dec amount)) in if owed <? 0 then GPanic else GVal [Ev "pay"%string [owed]]).
+Proof.
+  intros start end_ now amount escrow ratio pct ok. split; [|split].
+  - rewrite gen_pullGauge_model. unfold gauge_events, Gauge.gauge_ratio, Gauge.micros. cbn [Gauge.cempty].
+    destruct (end_ <? now); [reflexivity|]. destruct (end_ <=? start); [reflexivity|].
+    destruct (Z.quot (Gauge.tsub end_ start) 1000 =? 0); reflexivity.
+  - rewrite gen_pullCoin_model. unfold Gauge.pull_coin.
+    destruct (dtrunc64 _) as [amt|]; [|reflexivity].
+    destruct (Z.eqb_spec amt 0) as [->|E]; [reflexivity|].
+    destruct (amt <? 0); [reflexivity|].
+    destruct (amt <=? escrow); destruct (Z.eqb_spec amt 0); try contradiction; reflexivity.
+  - exact (gen_rewardCoin_spec amount pct ok).
+Qed.
+Print Assumptions C05_code_tie_release_and_payout_panic_sites.
